@@ -75,6 +75,38 @@ class Cmp:
         """numeric / general terms"""
         if a == e:
             return EQ
+        ra, re_ = T.unroot(a), T.unroot(e)
+        # min{..} <= each of its operands <= max{..}
+        if isinstance(re_, tuple) and re_ and re_[0] in ('min', 'max') and T.as_lin(a) in re_[1]:
+            self.note(f'{T.show(a)} instead of {T.show(re_)}')
+            return OVER if re_[0] == 'min' else UNDER
+        if isinstance(ra, tuple) and ra and ra[0] in ('min', 'max') and T.as_lin(e) in ra[1]:
+            self.note(f'{T.show(ra)} instead of {T.show(e)}')
+            return UNDER if ra[0] == 'min' else OVER
+        # pos(b) = max(0, b)
+        if isinstance(re_, tuple) and re_ and re_[0] == 'pos' and not (isinstance(ra, tuple) and ra and ra[0] == 'pos'):
+            d1 = self.cmp(a, re_[1])
+            la = T.as_lin(a)
+            if d1 in (EQ, OVER) and la[1] >= 0 and all(c >= 0 for _, c in la[2]):
+                self.note(f'{T.show(a)[:80]} instead of the saturating {T.show(re_)[:80]}')
+                return OVER
+            if d1 == UNDER:
+                return UNDER
+        if isinstance(ra, tuple) and ra and ra[0] == 'pos' and not (isinstance(re_, tuple) and re_ and re_[0] == 'pos'):
+            d1 = self.cmp(ra[1], e)
+            le = T.as_lin(e)
+            if d1 in (EQ, OVER):
+                return OVER if d1 == OVER else OVER
+            if d1 == UNDER and le[1] >= 0 and all(c >= 0 for _, c in le[2]):
+                return UNDER
+        # one branch of an expected conditional, unconditionally
+        if isinstance(re_, tuple) and re_ and re_[0] == 'ite' and not (isinstance(ra, tuple) and ra and ra[0] == 'ite'):
+            if T.as_lin(a) == T.as_lin(re_[2]):
+                self.note(f'the branch {T.show(re_[2])[:60]} is taken unconditionally (condition {T.show(re_[1])[:60]} dropped)')
+                return self.cmp(re_[2], re_[3])
+            if T.as_lin(a) == T.as_lin(re_[3]):
+                self.note(f'the branch {T.show(re_[3])[:60]} is taken unconditionally (condition {T.show(re_[1])[:60]} dropped)')
+                return self.cmp(re_[3], re_[2])
         if T.is_lin(a) or T.is_lin(e):
             return self.cmp_lin(T.as_lin(a), T.as_lin(e))
         return self.cmp_root(a, e)
